@@ -27,6 +27,8 @@ var _ telemetry.ProgramReport // the contracts below name the type
 //@ ghost reportExists bool
 //@ ghost lockHeld bool
 //@ ghost lockLeft bool
+//@ ghost status int
+//@ ghost discarded bool
 //@ ghost markerAbsent bool
 //@ ghost private bool
 //@ ghost contributed bool
@@ -64,7 +66,7 @@ func specUploader(u *uploader) bool {
 
 //@ contract Run
 //@   recovers-first
-//@   modifies heap, $fsops, $lockHeld, $markerAbsent, $reportExists, $contributed, $minsize, $nprog, $spanName, $spanOK, $spanExpiry, $collected, $dateOK, $weekAge, $tooOld, $lockLeft
+//@   modifies heap, $fsops, $lockHeld, $markerAbsent, $reportExists, $contributed, $minsize, $nprog, $spanName, $spanOK, $spanExpiry, $collected, $dateOK, $weekAge, $tooOld, $lockLeft, $status, $discarded
 
 //@ contract newUploader
 //@   ensures result1 == nil ==> uploaderOK(result0) && fresh(result0)
@@ -90,7 +92,7 @@ func specUploader(u *uploader) bool {
 //@   ensures uploaderOK(u)
 //@   ensures $mode == "off" ==> $fsops == old($fsops)
 //@   loop 1: invariant uploaderOK(u) && (len(ready) > 0 ==> $mode == "on") && ($mode == "off" ==> $fsops == old($fsops))
-//@   modifies u.cache.m, entries(u.cache.m), maps(string, int64), $fsops, $reportExists, $lockHeld, $markerAbsent, $contributed, $minsize, $nprog, $spanName, $spanOK, $spanExpiry, $collected, $dateOK, $weekAge, $tooOld, $lockLeft
+//@   modifies u.cache.m, entries(u.cache.m), maps(string, int64), $fsops, $reportExists, $lockHeld, $markerAbsent, $contributed, $minsize, $nprog, $spanName, $spanOK, $spanExpiry, $collected, $dateOK, $weekAge, $tooOld, $lockLeft, $status, $discarded
 
 // findWork only reads: nothing is created, changed or removed (it may create
 // the upload directory itself). A report name is put on the ready list only in
@@ -326,7 +328,7 @@ func specUploader(u *uploader) bool {
 //@   at call FindStringSubmatch#1: assert arg1 == fname
 //@   at call ReadFile#1: assert arg0 == fname && (match == nil || len(match) < 2 || !(match[1] > today))
 //@   at call uploadReportContents#1: assert arg1 == fname && issub(arg2, buf, 0, len(buf)) && (match == nil || len(match) < 2 || !(match[1] > today))
-//@   modifies $fsops, $lockHeld, $markerAbsent, $minsize, $lockLeft
+//@   modifies $fsops, $lockHeld, $markerAbsent, $minsize, $lockLeft, $status, $discarded
 
 // uploadReportContents: lock before POST, marker re-checked under the lock,
 // disposal of the report exactly as the status dictates.
@@ -358,4 +360,11 @@ func specUploader(u *uploader) bool {
 //@   at call Remove#1: assert arg0 == newname + ".lock"
 //@   at call Remove#1: ghost $lockLeft = false
 //@   ensures !$lockLeft
-//@   modifies $fsops, $lockHeld, $markerAbsent, $minsize, $lockLeft
+// A client error is final: after any 4xx answer the local report has been removed
+// (it is not kept for a retry; only 200 marks it uploaded).
+//@   at call Base#1: ghost $status = 0
+//@   at call Base#1: ghost $discarded = false
+//@   at call Post#1: after ghost $status = ite(result1 == nil, result0.StatusCode, 0)
+//@   at call Remove#3: ghost $discarded = true
+//@   ensures $status >= 400 && $status < 500 ==> $discarded
+//@   modifies $fsops, $lockHeld, $markerAbsent, $minsize, $lockLeft, $status, $discarded
